@@ -280,6 +280,8 @@ class Unit:
                 item[0].ws = ''
             if kind in ('struct', 'enum', 'type', 'const', 'static'):
                 item = X.widen_item_vis(item, kind)
+            if kind == 'const' and any(d.kind == 'fold' for d in blk.dirs):
+                item = fold_const(item, log)
             for d in blk.dirs:
                 if d.kind == 'derive':
                     # R1 keeps the listed derives (they are in the source; logged)
@@ -455,6 +457,28 @@ class Unit:
                 out.raw(ltxt, ('unit', req_lines[0]))
             info['vac'].append({'fn': qual, 'probe': vname, 'out_lines': (vs, out.line)})
         return res, contracted
+
+
+def fold_const(item, log):
+    """R14: the initialiser of a const is replaced by the literal it evaluates to (integers, + - * / << >> and parentheses only)."""
+    eq = next(i for i, t in enumerate(item) if t.text == '=')
+    semi = max(i for i, t in enumerate(item) if t.text == ';')
+    expr = item[eq + 1:semi]
+    txt = []
+    for t in expr:
+        if t.kind == 'num':
+            txt.append(re.sub(r'(_|[iu](8|16|32|64|128|size))', '', t.text))
+        elif t.kind == 'punct' and t.text in ('+', '-', '*', '/', '<<', '(', ')'):
+            txt.append('//' if t.text == '/' else t.text)
+        elif t.kind == 'punct' and t.text == '>':
+            txt.append('>')
+        else:
+            raise Maintenance('R14: cannot fold const initialiser token `%s`' % t.text)
+    src = ' '.join(txt).replace('> >', '>>')
+    val = eval(src, {'__builtins__': {}}, {})
+    log.append(('R14', expr[0].file, expr[0].line, 'const initialiser `%s` folded to %d' % (' '.join(t.text for t in expr), val)))
+    lit = Tok('num', str(val), ' ', expr[0].file, expr[0].line)
+    return item[:eq + 1] + [lit] + item[semi:]
 
 
 class Emitter:
